@@ -18,9 +18,11 @@ deriving Repr, DecidableEq, Inhabited
 
 def idxK : Idx Val := ⟨str "k", fun v => if v.k.isEmpty then none else some v.k⟩
 def idxKG : Idx Val := ⟨str "kg", fun v => some (v.g ++ 95 :: v.k)⟩
-def idxs : List (Idx Val) := [idxK, idxKG]
+/-- always indexed under K — the empty, non-nil key when K is empty — except values of group "n" -/
+def idxE : Idx Val := ⟨str "e", fun v => if v.g = str "n" then none else some v.k⟩
+def idxs : List (Idx Val) := [idxK, idxKG, idxE]
 
-def idxOf (n : Bytes) : Idx Val := if n = str "kg" then idxKG else idxK
+def idxOf (n : Bytes) : Idx Val := if n = str "kg" then idxKG else if n = str "e" then idxE else idxK
 
 structure Task where
   id : Bytes
